@@ -47,3 +47,5 @@ pub mod pm1;
 pub use pm1::*;
 pub mod isqrt;
 pub use isqrt::*;
+pub mod batchinv;
+pub use batchinv::*;
